@@ -230,6 +230,14 @@ fn main() {
     }
     if pl.version_matrix {
         bad.extend(matrices::version_matrix(&opts, &mut st));
+        // a fixed set of migration histories (independent of VERIF_SEED) so that the round-trip and
+        // conversion floors are reached by construction
+        for s in 1..=60u64 {
+            let h = migrate::run_migration_history(0xF1_0000 + s, &opts, &mut st);
+            if !h.found.is_empty() {
+                bad.push(h);
+            }
+        }
     }
 
     // random workloads, sharded over the cores
